@@ -206,8 +206,8 @@ impl Monitor for C16 {
     }
     fn streams(&self, tier: Tier) -> Vec<StreamSpec> {
         let mut s = v1_streams(tier, 6_000);
-        s.push(stream("c16-v2", tier.n(40, 150_000, 15_000_000)));
-        s.push(stream("c16-tlv", tier.n(40, 150_000, 15_000_000)));
+        s.push(stream("c16-v2", tier.n(40, 400_000, 15_000_000)));
+        s.push(stream("c16-tlv", tier.n(40, 400_000, 15_000_000)));
         s
     }
     fn run_case(&self, stream: &str, idx: u64, seed: u64, rec: &mut Recorder) {
